@@ -253,3 +253,109 @@ Qed.
 
 Lemma event_wf_dels kp ks : Forall event_wf (map (fun k => JDel (kp ++ [k])) ks).
 Proof. apply Forall_forall. intros e Hin. apply in_map_iff in Hin as [k [<- _]]. destruct kp; discriminate. Qed.
+
+(** * 4. The model's outcome is the nested dict's outcome on the model's own view *)
+Lemma last_item_in : forall d k t, last_item d = Some (k, t) -> In (k, t) d.
+Proof.
+  induction d as [|[k0 t0] d IH]; intros k t H; [discriminate|].
+  destruct d as [|x d']; [inversion H; subst; left; reflexivity|].
+  right. apply IH. exact H.
+Qed.
+
+Lemma last_item_none d : last_item d = None -> d = [].
+Proof.
+  induction d as [|x d IH]; [reflexivity|]. destruct d as [|y d']; [discriminate|].
+  intros H. specialize (IH H). discriminate.
+Qed.
+
+Lemma lower_set_cache c d : lower (set_cache c d) = lower c.
+Proof. reflexivity. Qed.
+
+Lemma lower_track_del c kp k : lower (track_del c kp k) = lower c.
+Proof. unfold track_del. destruct (del_mark (c_dels c) kp k); reflexivity. Qed.
+
+Lemma lower_fold_del kp : forall ks c, lower (fold_left (fun c' k => track_del c' kp k) ks c) = lower c.
+Proof.
+  induction ks as [|k ks IH]; intros c; [reflexivity|]. cbn [fold_left]. rewrite IH. apply lower_track_del.
+Qed.
+
+Lemma lower_fold_set kp : forall (kvs : list (string * tree)) c,
+  lower (fold_left (fun c' kv => track_set c' kp (fst kv) (snd kv)) kvs c) = lower c.
+Proof.
+  induction kvs as [|kv kvs IH]; intros c; [reflexivity|]. cbn [fold_left]. rewrite IH. reflexivity.
+Qed.
+
+Ltac fin := repeat split; try reflexivity; cbn [fst snd]; rewrite ?lower_set_cache; try apply lower_track_del.
+
+Theorem model_out_is_nd_out S fs c J o : is_node S = true -> good S c J -> op_ok S o = true ->
+  guarded_path_op o = true ->
+  snd (step fs c o) = fst (nd_step (c_cache c) o (snd (step fs c o))) /\
+  snd (nd_step (c_cache c) o (snd (step fs c o))) = events_of c o /\
+  lower (fst (step fs c o)) = lower c.
+Proof.
+  intros HS HG Hok Hg.
+  destruct (good_cache_conforms S c J HS HG) as [Wc _].
+  destruct o; simpl in Hok, Hg; try discriminate; unfold step, step_with, events_of; cbn [nd_step];
+    change (walk fl (c_cache c) kp) with (nav fl (c_cache c) kp);
+    (destruct (nav fl (c_cache c) kp) as [d0|e] eqn:Hn; [|repeat split; reflexivity]).
+  - (* Get *)
+    destruct (get k d0); repeat split; reflexivity.
+  - (* SetV *)
+    destruct v as [x|vk]; [|discriminate].
+    rewrite excise_not_blocked by (eapply nav_clear_above; eassumption).
+    destruct (step_write S c J fl kp k x ONone HS HG Hok d0 Hn) as [d [Er _]].
+    unfold merged. rewrite Er. fin.
+  - (* Del *)
+    unfold has. destruct (get k d0) eqn:G; [|repeat split; reflexivity].
+    rewrite del_not_blocked by (eapply nav_clear_above; eassumption).
+    destruct (step_delete S c J fl kp k ONone HS HG d0 Hn) as [d [Er _]].
+    unfold merged. rewrite Er. fin.
+  - (* Pop *)
+    unfold has. destruct (get k d0) eqn:G.
+    + rewrite del_not_blocked by (eapply nav_clear_above; eassumption).
+      destruct (step_delete S c J fl kp k (OVal t) HS HG d0 Hn) as [d [Er _]].
+      unfold merged. rewrite Er. fin.
+    + destruct dflt; repeat split; reflexivity.
+  - (* PopItem *)
+    destruct (last_item d0) as [[k t]|] eqn:G.
+    + rewrite del_not_blocked by (eapply nav_clear_above; eassumption).
+      destruct (step_delete S c J fl kp k (OPair k t) HS HG d0 Hn) as [d [Er _]].
+      unfold merged. rewrite Er. cbn [fst snd].
+      pose proof (nav_wf fl kp _ d0 Wc Hn) as W0.
+      pose proof (in_get k t d0 (wf_NoDup d0 W0) (last_item_in d0 k t G)) as Gk.
+      destruct d0 as [|x d0']; [discriminate|]. rewrite Gk. fin.
+    + apply last_item_none in G. subst d0. repeat split; reflexivity.
+  - (* Clear *)
+    destruct (keys d0) as [|k0 ks0] eqn:Ek; [repeat split; reflexivity|].
+    pose proof (nav_clear_upto S c J fl kp d0 HS HG Hn) as Hcu.
+    rewrite del_not_blocked by (apply clear_upto_above; assumption).
+    destruct HG as [HL HI HC].
+    destruct (fold_clear S kp (k0 :: ks0) c J HL HI Hcu) as [HL' HI'].
+    destruct (remerge_good S _ _ ONone HS HL' HI') as [d [Er _]].
+    cbn [fold_left] in Er. cbn [fold_left]. unfold merged. rewrite Er. repeat split; try reflexivity.
+    cbn [fst]. rewrite lower_set_cache, (lower_fold_del kp ks0 (track_del c kp k0)). apply lower_track_del.
+  - (* SetDefault *)
+    unfold has. destruct (get k d0) eqn:G; [repeat split; reflexivity|].
+    destruct dflt as [[x|vk]|]; try discriminate.
+    + rewrite excise_not_blocked by (eapply nav_clear_above; eassumption).
+      destruct (step_write S c J fl kp k x (OVal (Leaf x)) HS HG Hok d0 Hn) as [d [Er _]].
+      unfold merged. rewrite Er. fin.
+    + rewrite excise_not_blocked by (eapply nav_clear_above; eassumption).
+      destruct (step_write S c J fl kp k VNone (OVal (Leaf VNone)) HS HG Hok d0 Hn) as [d [Er _]].
+      unfold merged. rewrite Er. fin.
+  - (* Update *)
+    destruct kvs as [|kv kvs']; [repeat split; reflexivity|].
+    pose proof (nav_clear_upto S c J fl kp d0 HS HG Hn) as Hcu.
+    rewrite excise_not_blocked by (apply clear_upto_above; assumption).
+    destruct HG as [HL HI HC].
+    destruct (fold_update S kp (kv :: kvs') c J Hok HL HI Hcu) as [HL' HI'].
+    destruct (remerge_good S _ _ ONone HS HL' HI') as [d [Er _]].
+    cbn [fold_left] in Er. cbn [fold_left]. unfold merged. rewrite Er. repeat split; try reflexivity.
+    cbn [fst]. rewrite lower_set_cache, (lower_fold_set kp kvs' (track_set c kp (fst kv) (snd kv))). reflexivity.
+  - repeat split; reflexivity.
+  - repeat split; reflexivity.
+  - repeat split; reflexivity.
+  - repeat split; reflexivity.
+  - repeat split; reflexivity.
+  - destruct (get k d0); repeat split; reflexivity.
+Qed.
